@@ -548,6 +548,8 @@ fn c20_families(thorough: bool) -> Vec<(String, Pats, bool)> {
         ("n65-prefixfree".into(), nfam(65), true),
         ("n1000".into(), (0..1000u32).map(|i| format!("p{}x{}", i, i % 7).into_bytes()).collect(), false),
     ];
+    // 1 500 pseudo-random byte patterns: thousands of dense rows of 256 classes
+    v.push(("rand-bytes-1500".into(), crate::e3::random_byte_patterns(1500), false));
     // a pattern of 2^16 bytes next to its own 8-byte prefix (16-bit length fields)
     for (name, pats) in crate::e3::huge_lists().into_iter().filter(|(n, _)| n.starts_with("huge65536")) {
         v.push((name, pats, false));
